@@ -287,11 +287,11 @@ def main(argv):
         kind, want = x["expect"]
         if kind == "ok":
             if res != "OK " + recs_str(want):
-                c.violation("records-not-exact: %s (%d-byte stream, fragments %s): expected %d records byte for byte, got %s"
-                            % (x["bucket"], len(x["stream"]), csv(x["frags"])[:40], len(want), res[:100]), rep)
+                c.violation("records-not-exact(%s): (%d-byte stream, fragments %s): expected %d records byte for byte, got %s"
+                            % (x["bucket"].split("/")[0] + "/" + x["bucket"].split("/")[1], len(x["stream"]), csv(x["frags"])[:40], len(want), res[:100]), rep)
         else:
             if res.startswith("OK"):
-                c.violation("broken-framing-accepted: %s: stream %r read successfully as %s" % (x["bucket"], x["stream"][:70], res[:80]), rep)
+                c.violation("broken-framing-accepted(%s): stream %r read successfully as %s" % (x["bucket"], x["stream"][:70], res[:80]), rep)
             elif want is not None:
                 got = res.split(" ")[2] if len(res.split(" ")) > 2 else "-"
                 if got != recs_str(want):
